@@ -48,8 +48,8 @@ class State:
         ctx = self.ctx
         B = np.asarray(res[0])
         ctx.count("binning_calls_checked")
-        if not np.all(np.isfinite(X)):
-            ctx.count("binning_nonfinite_input_skipped")
+        if not np.all(np.isfinite(X)) or not np.all(np.isfinite(cuts)):
+            ctx.count("binning_nonfinite_input_skipped")      # nan cut points come from nan updates: C17's business
             return
         ok = B.shape == (len(X), len(cuts) + 1) and np.all(np.isfinite(B)) and np.all(B >= 0) and np.all(np.abs(B.sum(1) - 1) <= 1e-9)
         if not ok:
